@@ -80,11 +80,20 @@ class DenseBlockDiagonalOperator(AbstractLinearOperator):
         return jax.tree.map(ft.partial(jnp.einsum, self.subscripts), self.blocks, x)
 
     def transpose(self) -> AbstractLinearOperator:
-        return DenseBlockDiagonalOperator(
+        transposed = DenseBlockDiagonalOperator(
             self.blocks,
             self.out_structure(),
             self._get_transposed_subscripts(self.subscripts),
         )
+        in_shapes = [leaf.shape for leaf in jax.tree.leaves(self.in_structure())]
+        out_shapes = [leaf.shape for leaf in jax.tree.leaves(transposed.out_structure())]
+        if in_shapes != out_shapes:
+            # einsum broadcasts the ellipsis dimensions of the blocks against those of the input:
+            # rewriting the subscripts does not give the adjoint in that case
+            raise ValueError(
+                'The operator cannot be transposed: the blocks broadcast the dimensions of the input.'
+            )
+        return transposed
 
     def in_structure(self) -> PyTree[jax.ShapeDtypeStruct]:
         return self._in_structure
